@@ -133,7 +133,14 @@ def apply_op(cl, nodes, op):
         nodes[op[1]].parent = _arg(nodes, op[2])
     elif k == "SetChildren":
         F.queue = [_fq(op[4])]
-        nodes[op[1]].children = _container(op[2], [_arg(nodes, a) for a in op[3]])
+        cont = _container(op[2], [_arg(nodes, a) for a in op[3]])
+        try:
+            nodes[op[1]].children = cont
+        finally:
+            # the caller's container must not be aliased by the node: emptying it afterwards
+            # may not change anything (a missing defensive copy would show up as lost children)
+            if isinstance(cont, list):
+                cont.clear()
     elif k == "DelChildren":
         del nodes[op[1]].children
     elif k == "Append":
